@@ -335,6 +335,8 @@ def flat_control_keys(flat):
 def item_to_op(it, qubits):
     import cirq
 
+    if it.get("tags"):
+        return item_to_op({k: v for k, v in it.items() if k != "tags"}, qubits).with_tags(*it["tags"])
     if it["t"] == "CB":
         return item_to_op(it["blk"], qubits).with_classical_controls(P.cirq_cond(it["cond"]))
     if it["t"] != "B":
@@ -352,6 +354,17 @@ def item_to_op(it, qubits):
     if it["use_ids"] is not None:
         kw["use_repetition_ids"] = it["use_ids"]
     return cirq.CircuitOperation(cirq.FrozenCircuit(moments), **kw)
+
+
+def add_tags(rng, items, p=0.25):
+    """tags (which carry no meaning) on operations at every depth, sub-circuits and controlled sub-circuits included"""
+    for it in items:
+        if rng.random() < p:
+            it["tags"] = tuple(["tag-a", "tag-b", 7][int(i)] for i in rng.choice(3, size=int(rng.integers(1, 3)), replace=False))
+        if it["t"] == "B":
+            add_tags(rng, it["body"], p)
+        elif it["t"] == "CB":
+            add_tags(rng, it["blk"]["body"], p)
 
 
 def item_qubits_keys(it):
@@ -401,5 +414,5 @@ def describe(items, ind=0):
             out += describe(it["body"], ind + 1)
             out.append("  " * ind + "}")
         else:
-            out.append("  " * ind + P.describe([it])[0])
+            out.append("  " * ind + P.describe([it])[0] + (" tags=%r" % (it["tags"],) if it.get("tags") else ""))
     return out
